@@ -12,6 +12,8 @@ pub enum Strategy {
     Reader(History),
     /// search_path on a real (tmpfs) file, with or without memory maps.
     Path { mmap: bool },
+    /// search_file on an already opened real file (no path is known to the searcher).
+    File { mmap: bool },
     /// search_path on an existing special file (e.g. under /proc, where files
     /// report a size of 0 but have content and cannot be mapped).
     Special { path: String, mmap: bool },
@@ -23,6 +25,7 @@ impl Strategy {
             Strategy::Slice => "slice".into(),
             Strategy::Reader(h) => format!("reader/{}", h.style.name()),
             Strategy::Path { mmap } => format!("path/{}", if *mmap { "mmap" } else { "read" }),
+            Strategy::File { mmap } => format!("file/{}", if *mmap { "mmap" } else { "read" }),
             Strategy::Special { path, mmap } => format!("special:{path}/{}", if *mmap { "mmap" } else { "read" }),
         }
     }
@@ -31,6 +34,7 @@ impl Strategy {
             Strategy::Slice => "slice",
             Strategy::Reader(_) => "reader",
             Strategy::Path { .. } => "path",
+            Strategy::File { .. } => "file",
             Strategy::Special { .. } => "special-file",
         }
     }
@@ -39,6 +43,7 @@ impl Strategy {
             Strategy::Slice => json!({"type": "slice"}),
             Strategy::Reader(h) => json!({"type": "reader", "history": h.to_json()}),
             Strategy::Path { mmap } => json!({"type": "path", "mmap": mmap}),
+            Strategy::File { mmap } => json!({"type": "file", "mmap": mmap}),
             Strategy::Special { path, mmap } => json!({"type": "special", "path": path, "mmap": mmap}),
         }
     }
@@ -46,6 +51,7 @@ impl Strategy {
         match v["type"].as_str().unwrap_or("slice") {
             "reader" => Strategy::Reader(History::from_json(&v["history"])),
             "path" => Strategy::Path { mmap: v["mmap"].as_bool().unwrap_or(false) },
+            "file" => Strategy::File { mmap: v["mmap"].as_bool().unwrap_or(false) },
             "special" => Strategy::Special { path: v["path"].as_str().unwrap_or("").into(), mmap: v["mmap"].as_bool().unwrap_or(false) },
             _ => Strategy::Slice,
         }
@@ -53,11 +59,11 @@ impl Strategy {
 }
 
 pub fn knobs_json(k: &Knobs) -> Value {
-    json!({"capacity": k.capacity, "heap_limit": k.heap_limit, "mmap": k.mmap, "toggle_multi_line": k.toggle_ml, "warm_up": k.warm, "cloned_searcher": k.cloned})
+    json!({"capacity": k.capacity, "heap_limit": k.heap_limit, "mmap": k.mmap, "toggle_multi_line": k.toggle_ml, "warm_up": k.warm, "cloned_searcher": k.cloned, "boxed_sink": k.boxed_sink})
 }
 
 pub fn knobs_from_json(v: &Value) -> Knobs {
-    Knobs { capacity: v["capacity"].as_u64().map(|x| x as usize), heap_limit: v["heap_limit"].as_u64().map(|x| x as usize), mmap: v["mmap"].as_bool().unwrap_or(false), toggle_ml: v["toggle_multi_line"].as_bool().unwrap_or(false), warm: v["warm_up"].as_u64().unwrap_or(0), cloned: v["cloned_searcher"].as_bool().unwrap_or(false) }
+    Knobs { capacity: v["capacity"].as_u64().map(|x| x as usize), heap_limit: v["heap_limit"].as_u64().map(|x| x as usize), mmap: v["mmap"].as_bool().unwrap_or(false), toggle_ml: v["toggle_multi_line"].as_bool().unwrap_or(false), warm: v["warm_up"].as_u64().unwrap_or(0), cloned: v["cloned_searcher"].as_bool().unwrap_or(false), boxed_sink: v["boxed_sink"].as_bool().unwrap_or(false) }
 }
 
 #[derive(Clone, Debug)]
@@ -111,7 +117,7 @@ fn run_inner(case: &Case, knobs: &Knobs, strat: &Strategy, inject: Option<(usize
     };
     let matcher = build_matcher(case).expect("matcher");
     let mut k = *knobs;
-    if let Strategy::Path { mmap } | Strategy::Special { mmap, .. } = strat {
+    if let Strategy::Path { mmap } | Strategy::File { mmap } | Strategy::Special { mmap, .. } = strat {
         k.mmap = *mmap;
     }
     let mut searcher = build_searcher(&case.cfg, &k);
@@ -120,16 +126,23 @@ fn run_inner(case: &Case, knobs: &Knobs, strat: &Strategy, inject: Option<(usize
     }
     let mut sink = SimSink::new(inject);
     let (res, log, eintr, errf) = match strat {
+        Strategy::Slice if k.boxed_sink => (searcher.search_slice(&matcher, &case.data, Box::new(&mut sink)), vec![], 0, false),
         Strategy::Slice => (searcher.search_slice(&matcher, &case.data, &mut sink), vec![], 0, false),
         Strategy::Reader(h) => {
             let mut rdr = SimReader::new(&case.data, h, case.cfg.term.byte());
-            let r = searcher.search_reader(&matcher, &mut rdr, &mut sink);
+            let r = if k.boxed_sink { searcher.search_reader(&matcher, &mut rdr, Box::new(&mut sink)) } else { searcher.search_reader(&matcher, &mut rdr, &mut sink) };
             (r, std::mem::take(&mut rdr.log), rdr.eintr_fired, rdr.error_fired)
         }
         Strategy::Path { .. } => {
             let p = scratch.expect("scratch dir").join("haystack");
             std::fs::write(&p, &case.data).expect("write haystack");
             (searcher.search_path(&matcher, &p, &mut sink), vec![], 0, false)
+        }
+        Strategy::File { .. } => {
+            let p = scratch.expect("scratch dir").join("haystack");
+            std::fs::write(&p, &case.data).expect("write haystack");
+            let f = std::fs::File::open(&p).expect("open haystack");
+            (searcher.search_file(&matcher, &f, &mut sink), vec![], 0, false)
         }
         Strategy::Special { path, .. } => (searcher.search_path(&matcher, path, &mut sink), vec![], 0, false),
     };
